@@ -45,4 +45,14 @@ def Canon : Shape → Prop
   | multipatch _ _ => True
 end Shape
 
+/-- a vertex read back when the M block may be absent -/
+def Pt.readBackOpt (d : Dim) (mPresent : Bool) (p : Pt) : Pt :=
+  { x := p.x, y := p.y, z := if d.hasZ then p.z else F64.zero,
+    m := if d.hasM && mPresent then p.m.maxNoData else F64.noData }
+def Pt.readRawOpt (d : Dim) (mPresent : Bool) (p : Pt) : Pt :=
+  { x := p.x, y := p.y, z := if d.hasZ then p.z else F64.zero,
+    m := if d.hasM && mPresent then p.m else F64.noData }
+def BBox.readRawOpt (d : Dim) (mPresent : Bool) (b : BBox) : BBox := ⟨b.min.readRawOpt d mPresent, b.max.readRawOpt d mPresent⟩
+
+
 end Shp
